@@ -70,6 +70,11 @@ func genRes(r *vf.RNG) (*resource.Resource, modelRes) {
 	m := validModel(kvs)
 	u := vf.Pick(r, urls)
 	cp := append([]attribute.KeyValue(nil), kvs...)
+	// the caller's list is used for construction two or three times (a detector kept across resource.New
+	// calls does that): the resource returned is the last build
+	for again := r.Intn(3); again > 0; again-- {
+		_ = resource.NewSchemaless(cp...)
+	}
 	if u == "" && r.Bool() {
 		return resource.NewSchemaless(cp...), modelRes{m: m}
 	}
